@@ -587,7 +587,10 @@ def cpu_count_logical():
         num = 0
         with open_binary(f"{get_procfs_path()}/cpuinfo") as f:
             for line in f:
-                if line.lower().startswith(b'processor'):
+                # Per-CPU lines are spelled "processor" on every
+                # architecture; "Processor" (ARM kernels < 3.8) is the
+                # model name, not a CPU.
+                if line.startswith(b'processor'):
                     num += 1
 
         # unknown format (e.g. amrel/sparc architectures), see:
